@@ -150,6 +150,7 @@ def run_bank(desc, tier, seed, res):
             if ob.writes:
                 res.violation("C10/write/other-unit-written", f"{name}: a unit that was not addressed was written", wit)
             ncmd = bus.n_commands
+            base_answers = list(bus.command_answers)
             # wrong lengths
             for bad in (raw + b"\x00", raw[:-1], b""):
                 if len(bad) == w:
@@ -169,7 +170,7 @@ def run_bank(desc, tier, seed, res):
             elif has_lock and not is_lockbyte and row.access == "nvm_rw_l" and bank3.image[2] == 0x55:
                 res.violation("C10/write/left-unlocked/ignore-feedback", f"{name}: write with ignore_feedback=True left the bank unlocked", wit)
             # ------------------------------------------------ fault enumeration over the command stream
-            if d == 0:
+            if d == 0 or (tier == "thorough" and d < 4):
                 for pos in range(ncmd):
                     for fk in ("silence", "garble", "subst"):
                         unit4, other4, bank4, ob4, addr4 = make_unit(rng(seed, "C10", bankkey, desc["rep"], name, d), bankkey, family, lock0)
@@ -185,8 +186,11 @@ def run_bank(desc, tier, seed, res):
                         res.hit("faults_injected")
                         kind = fk
                         if fk == "subst":
-                            # the substituted answer is a wrong echo / wrong DTR0 value
-                            kind = (raw[0] ^ 0x5A) if raw else 1
+                            # the substituted answer differs from the fault-free answer to this very command (wrong echo / wrong DTR0)
+                            true = base_answers[pos] if pos < len(base_answers) else None
+                            if true is None or true[0] != "ok":
+                                continue
+                            kind = (true[1] ^ 0x5A) & 0xFF
                         o = attempt(bus4, cls.write_raw(addr4, raw), fault_at=pos, fault_kind=kind, on_command=on_cmd)
                         c = hit.get("c")
                         expects_answer = c is not None and c.response is not None
